@@ -111,17 +111,31 @@ func VerifC10Pages(h *verifh.H) {
 	pages := 1 + h.Choice("pages", h.Param("maxPages", 3))
 	per := h.Param("perPage", 2)
 	full := h.Choice("fullsync", 2) == 1
+	// transform parallelism, and the size of the last page (a last page shorter than the
+	// parallelism makes the pipeline fall back to one worker for that page only)
+	par := 1 + h.Choice("par", h.Param("maxPar", 1))
+	lastSize := per
+	if h.Param("shortLast", 0) == 1 {
+		lastSize = 1 + h.Choice("lastSize", per)
+	}
 	hub := server.VerifNewHub(h)
 	runner := vRunner(hub, 2, 2)
 	all := vEntities(pages * per)
 	var batches [][]*server.Entity
 	var modes []int
 	var want []*server.Entity
+	modeOf := map[string]int{}
 	for k := 0; k < pages; k++ {
 		page := all[k*per : (k+1)*per]
+		if k == pages-1 {
+			page = all[k*per : k*per+lastSize]
+		}
 		batches = append(batches, page)
 		m := h.Choice("mode", 3)
 		modes = append(modes, m)
+		for _, e := range page {
+			modeOf[e.ID] = m
+		}
 		switch m {
 		case 0:
 			want = append(want, page...)
@@ -132,7 +146,8 @@ func VerifC10Pages(h *verifh.H) {
 		}
 	}
 	src := &vSource{batches: batches, failAt: -1}
-	tr := &vTransform{par: 1, modes: modes}
+	tr := &vTransform{par: par, modeOf: modeOf}
+	_ = modes
 	sink := &vSink{failBatch: -1}
 	spec := PipelineSpec{source: src, sink: sink, transform: tr, batchSize: per}
 	var pl Pipeline = &IncrementalPipeline{spec}
@@ -142,7 +157,19 @@ func VerifC10Pages(h *verifh.H) {
 	j := &job{id: "job-c10p", title: "c10p", pipeline: pl, runner: runner}
 	_, err := pl.sync(j, context.Background())
 	h.Assert(err == nil, "run succeeds")
-	h.Assert(vSameSeq(tr.seen, all), "every entity of every page is transformed exactly once, in order")
+	var src2 []*server.Entity
+	for _, b := range batches {
+		src2 = append(src2, b...)
+	}
+	if par == 1 {
+		h.Assert(vSameSeq(tr.seen, src2), "every entity of every page is transformed exactly once, in order")
+	} else {
+		// parallel workers see their chunks in any order: each source entity exactly once
+		for _, e := range src2 {
+			h.Assert(vCount(tr.seen, e) == 1, "every entity of every page is transformed exactly once")
+		}
+		h.Assert(len(tr.seen) == len(src2), "the transform sees exactly the source entities")
+	}
 	h.Assert(vSameSeq(sink.delivered, want), "the sink receives exactly what the transform returned, in order")
 	h.Observe("delivered", len(sink.delivered))
 }
